@@ -35,9 +35,11 @@ TABLE = {
     "os": ("module", "os"),
     "os.path": ("module", "os.path"),
     "os.getcwd": ("fn", "os.getcwd"),
+    "os.path.sep": ("const", "/"), "os.sep": ("const", "/"),
     "os.path.relpath": ("fn", "os.path.relpath"),
     "os.path.join": ("fn", "os.path.join"),
     "logging": ("module", "logging"),
+    "logging.info": ("noop", None), "logging.debug": ("noop", None), "logging.warning": ("noop", None), "logging.error": ("noop", None),
     "copy.deepcopy": ("fn", "deepcopy"),
     "pygments.util.ClassNotFound": ("exc", "ClassNotFound"),
     "json.JSONDecodeError": ("exc", "JSONDecodeError"),
@@ -123,6 +125,11 @@ def external_value(B, st, dotted, node):
         return VType(x)
     if kind == "toktype":
         return toktype_value(B, st, x)
+    if kind == "noop":
+        return VFunc("extfn", name="$noop")
+    if kind == "const":
+        B.eng.used_assumptions.add("POSIX path separator '/' (os.path.sep)")
+        return VStr(x)
     raise E.Unsupported(f"external {dotted}", node)
 
 
@@ -231,6 +238,8 @@ def uninterp(B, st, fname, args, ret, node, raises=None, fs=False, effect=False)
 
 
 def call_external(B, st, name, args, kwargs, node):
+    if name == "$noop":
+        return VNone()
     if name in B.ext_fns:
         return B.ext_fns[name](B, st, args, kwargs, node)
     if name in B.ext_funs:
